@@ -113,6 +113,8 @@ def main(argv=None):
         out = []
         for core, ent in unknown:
             ex = ent["examples"][0]
+            if isinstance(ex["case"], dict):
+                ex["case"] = dict(ex["case"], _core=core)  # lets a replay look for exactly this violation
             # a violation must reproduce from its recorded case before it is believed
             again = [c for c, _ in mod.replay(ex["case"])]
             again2 = [c for c, _ in mod.replay(ex["case"])]
